@@ -95,6 +95,34 @@ Lemma c12_cow name pl sb sl tbl flag perm dat :
     end.
 Proof. intros Hn Hne. apply cow_openfile_interrupted; [exact Hn | now apply acyclic_of_normal]. Qed.
 
+(* CacheOnReadFs.copyToLayer (cache_copy_to_layer: base Stat, then the copy) *)
+Lemma c12_cache_copy name pl sb sl dat n0 :
+  normalize_path name = name -> name <> s_slash -> amo_from pl n0 ->
+  reg_file sb name dat -> layer_sane sl name ->
+  exists sb' sl' n' r,
+    cache_copy_to_layer m_step (faulty_step m_step pl) sb (sl, n0) name = (sb', (sl', n'), r) /\
+    three_way sl sl' name dat r /\ layer_sane sl' name /\ cosmetic sb sb' /\
+    (r <> None -> exists i, (n0 <= i < n')%nat /\ pl i <> FltPass).
+Proof.
+  intros Hn Hne Hamo Hb Hs.
+  destruct (cache_copy_atomic_layer name pl sb sl dat n0 Hn (acyclic_of_normal name Hn Hne) Hamo Hb Hs)
+    as (sb' & sl' & n' & r & E & C & S' & _ & U & T).
+  exists sb', sl', n', r. split; [exact E|]. split; [exact T|]. split; [exact S'|]. split; [exact C | exact U].
+Qed.
+
+Lemma c12_cache_copy_base name pl sb sl dat nB :
+  normalize_path name = name -> name <> s_slash ->
+  reg_file sb name dat -> layer_sane sl name ->
+  exists sb' n' sl' r,
+    cache_copy_to_layer (faulty_step m_step pl) m_step (sb, nB) sl name = ((sb', n'), sl', r) /\
+    three_way sl sl' name dat r /\ layer_sane sl' name /\ cosmetic sb sb'.
+Proof.
+  intros Hn Hne Hb Hs.
+  destruct (cache_copy_atomic_base name pl sb nB sl dat Hn (acyclic_of_normal name Hn Hne) Hb Hs)
+    as (sb' & n' & sl' & r & E & C & S' & T).
+  exists sb', n', sl', r. split; [exact E|]. split; [exact T|]. split; [exact S' | exact C].
+Qed.
+
 (* plans with one entry have at most one fault *)
 Lemma amo_single i f : at_most_one_fault (fault_single i f).
 Proof.
